@@ -26,6 +26,19 @@ type ledgerRun struct {
 	name  string
 	cfg   ledger.Cfg
 	depth int
+	dataQ int // bound on data deviations inside one event (0 = unbounded), quick / thorough
+	dataT int
+}
+
+func (r ledgerRun) maxData(tier string) int {
+	d := r.dataQ
+	if tier == "thorough" {
+		d = r.dataT
+	}
+	if d == 0 {
+		return -1
+	}
+	return d
 }
 
 var (
@@ -64,69 +77,83 @@ var ledgerSpecs = []ledgerSpec{
 		// node 0 holds a stale overdrawing side tip (mx on p1) while node 1's chain p2..p4 grows past it
 		stale := []string{"P:0:p1", "D:1:0", "X:0:mx", "P:1:p2", "P:1:p3", "P:1:p4", "D:0:2", "D:0:3", "D:0:4"}
 		return []ledgerRun{
-			{"stale-side-tip+truncate", ledger.Cfg{Nodes: []string{"G", "N1"}, Supply: sp(10, 0), Menu: []ledger.TxSpec{t1, t3}, Hidden: []ledger.TxSpec{mx}, MaxProposeNodes: 1, Truncate: true, Prefix: stale, Props: only("C01")}, d - 2},
-			{"two-nodes+overdraw+truncate", ledger.Cfg{Nodes: []string{"G", "N1"}, Supply: sp(10, 0), Menu: []ledger.TxSpec{t1, t2, t3}, Crafted: []ledger.TxSpec{mx}, Truncate: true, Props: only("C01")}, d},
-			{"trusted-sealer", ledger.Cfg{Nodes: []string{"G"}, Supply: sp(10, 0), Menu: []ledger.TxSpec{t1, t3}, Crafted: []ledger.TxSpec{mx}, TrustedCraf: []ledger.TxSpec{my}, Props: only("C01")}, d},
-			{"carry-borrow-amounts", ledger.Cfg{Nodes: []string{"G"}, Supply: sp(1, 0), Menu: []ledger.TxSpec{t6, t7, tx("t7b", "R", "A", 0, 2)}, Props: only("C01")}, d},
-			{"after-truncation", ledger.Cfg{Nodes: []string{"G"}, Supply: sp(10, 0), Menu: []ledger.TxSpec{t3, t4, t2}, Crafted: []ledger.TxSpec{mx}, Truncate: true, Prefix: []string{"P:0:p1", "P:0:p2", "P:0:p3"}, Props: only("C01")}, d},
+			{"stale-side-tip+truncate", ledger.Cfg{Nodes: []string{"G", "N1"}, Supply: sp(10, 0), Menu: []ledger.TxSpec{t1, t3}, Hidden: []ledger.TxSpec{mx}, MaxProposeNodes: 1, Truncate: true, Prefix: stale, Props: only("C01")}, d - 2, 0, 0},
+			{"two-nodes+overdraw+truncate", ledger.Cfg{Nodes: []string{"G", "N1"}, Supply: sp(10, 0), Menu: []ledger.TxSpec{t1, t2, t3}, Crafted: []ledger.TxSpec{mx}, Truncate: true, Props: only("C01")}, d, 0, 0},
+			{"trusted-sealer", ledger.Cfg{Nodes: []string{"G"}, Supply: sp(10, 0), Menu: []ledger.TxSpec{t1, t3}, Crafted: []ledger.TxSpec{mx}, TrustedCraf: []ledger.TxSpec{my}, Props: only("C01")}, d, 0, 0},
+			{"carry-borrow-amounts", ledger.Cfg{Nodes: []string{"G"}, Supply: sp(1, 0), Menu: []ledger.TxSpec{t6, t7, tx("t7b", "R", "A", 0, 2)}, Props: only("C01")}, d, 0, 0},
+			{"after-truncation", ledger.Cfg{Nodes: []string{"G"}, Supply: sp(10, 0), Menu: []ledger.TxSpec{t3, t4, t2}, Crafted: []ledger.TxSpec{mx}, Truncate: true, Prefix: []string{"P:0:p1", "P:0:p2", "P:0:p3"}, Props: only("C01")}, d, 0, 0},
 		}
 	}},
 	{id: "C02", level: "model_checking", runs: func(tier string) []ledgerRun {
-		d := 5
+		d := 6
 		if tier == "thorough" {
-			d = 6
+			d = 8
 		}
 		return []ledgerRun{
-			{"concurrent-spends", ledger.Cfg{Nodes: []string{"G", "N1"}, Supply: sp(10, 0), Menu: []ledger.TxSpec{t1, t2, t3}, MaxProposeNodes: 1, Props: only("C02")}, d},
-			{"pay-genesis-wallet", ledger.Cfg{Nodes: []string{"G"}, Supply: sp(10, 0), Menu: []ledger.TxSpec{t1, t11, t3}, Props: only("C02")}, d},
+			{"concurrent-spends", ledger.Cfg{Nodes: []string{"G", "N1"}, Supply: sp(10, 0), Menu: []ledger.TxSpec{t1, t2, t3}, MaxProposeNodes: 1, Props: only("C02")}, d, 0, 0},
+			{"pay-genesis-wallet", ledger.Cfg{Nodes: []string{"G"}, Supply: sp(10, 0), Menu: []ledger.TxSpec{t1, t11, t3}, Props: only("C02")}, d, 0, 0},
 		}
 	}},
 	{id: "C03", level: "model_checking", runs: func(tier string) []ledgerRun {
-		d := 5
+		d := 6
 		if tier == "thorough" {
-			d = 6
+			d = 8
 		}
 		return []ledgerRun{
-			{"same-trx-two-nodes+dup", ledger.Cfg{Nodes: []string{"G", "N1"}, Supply: sp(10, 0), Menu: []ledger.TxSpec{t1, t7}, Dup: true, Tick: true, Props: only("C03")}, d},
-			{"drop-then-repropose+truncate", ledger.Cfg{Nodes: []string{"G"}, Supply: sp(10, 0), Menu: []ledger.TxSpec{t1, t3, t7}, Crafted: []ledger.TxSpec{mx}, Truncate: true, Props: only("C03")}, d},
+			{"same-trx-two-nodes+dup", ledger.Cfg{Nodes: []string{"G", "N1"}, Supply: sp(10, 0), Menu: []ledger.TxSpec{t1, t7}, Dup: true, Tick: true, Props: only("C03")}, d, 0, 0},
+			{"drop-then-repropose+truncate", ledger.Cfg{Nodes: []string{"G"}, Supply: sp(10, 0), Menu: []ledger.TxSpec{t1, t3, t7}, Crafted: []ledger.TxSpec{mx}, Truncate: true, Props: only("C03")}, d, 0, 0},
 		}
 	}},
 	{id: "C06", level: "model_checking", runs: func(tier string) []ledgerRun {
 		d := 4
 		if tier == "thorough" {
-			d = 6
+			d = 5
 		}
 		return []ledgerRun{
-			{"two-nodes", ledger.Cfg{Nodes: []string{"G", "N1"}, Supply: sp(10, 0), Menu: []ledger.TxSpec{t1, t2, t3, tx("tself", "A", "A", 1, 0)}, Props: only("C06")}, d},
-			{"truncated", ledger.Cfg{Nodes: []string{"G"}, Supply: sp(10, 0), Menu: []ledger.TxSpec{t1, t3, t5, t7}, Crafted: []ledger.TxSpec{tx("side", "R", "B", 1, 0)}, Truncate: true, Props: only("C06")}, d + 1},
+			{"two-nodes", ledger.Cfg{Nodes: []string{"G", "N1"}, Supply: sp(10, 0), Menu: []ledger.TxSpec{t1, t2, t3, tx("tself", "A", "A", 1, 0)}, Props: only("C06")}, d, 0, 0},
+			{"truncated", ledger.Cfg{Nodes: []string{"G"}, Supply: sp(10, 0), Menu: []ledger.TxSpec{t1, t3, t5, t7}, Crafted: []ledger.TxSpec{tx("side", "R", "B", 1, 0)}, Truncate: true, Props: only("C06")}, d + 1, 0, 0},
 		}
 	}},
 	{id: "C07", level: "model_checking", runs: func(tier string) []ledgerRun {
+		d := 6
+		if tier == "thorough" {
+			d = 8
+		}
+		// node 0 keeps an own side tip s (t7 on p1) while node 1's chain p2..p5 is delivered to it: two unmerged branches
+		unmerged := []string{"P:0:p1", "D:1:0", "P:1:p2", "P:1:p3", "P:1:p4", "P:1:p5", "P:0:t7", "D:0:1", "D:0:2", "D:0:3", "D:0:4"}
+		return []ledgerRun{
+			{"unmerged-branches", ledger.Cfg{Nodes: []string{"G", "N1"}, Supply: sp(10, 0), Menu: []ledger.TxSpec{t1, t3}, Hidden: []ledger.TxSpec{t7}, MaxProposeNodes: 1, Truncate: true, Prefix: unmerged, Props: only("C07")}, d - 2, 0, 0},
+			{"chain+side-branch", ledger.Cfg{Nodes: []string{"G"}, Supply: sp(10, 0), Menu: []ledger.TxSpec{t1, t3, t7, t4}, Crafted: []ledger.TxSpec{tx("side", "R", "B", 1, 0)}, Truncate: true, Props: only("C07")}, d, 0, 0},
+			{"two-nodes", ledger.Cfg{Nodes: []string{"G", "N1"}, Supply: sp(10, 0), Menu: []ledger.TxSpec{t1, t3, t7}, Truncate: true, MaxProposeNodes: 1, Props: only("C07")}, d, 0, 0},
+		}
+	}},
+	{id: "C09", level: "model_checking", runs: func(tier string) []ledgerRun {
+		d := 5
+		if tier == "thorough" {
+			d = 6
+		}
+		return []ledgerRun{
+			{"two-nodes+overdraw+truncate+dup", ledger.Cfg{Nodes: []string{"G", "N1"}, Supply: sp(10, 0), Menu: []ledger.TxSpec{t1, t2, t3}, Crafted: []ledger.TxSpec{mx}, Truncate: true, Dup: true, Tick: true, Props: only("C09")}, d, 0, 0},
+		}
+	}},
+	{id: "C10", level: "model_checking", runs: func(tier string) []ledgerRun {
 		d := 5
 		if tier == "thorough" {
 			d = 7
 		}
 		return []ledgerRun{
-			{"chain+side-branch", ledger.Cfg{Nodes: []string{"G"}, Supply: sp(10, 0), Menu: []ledger.TxSpec{t1, t3, t7, t4}, Crafted: []ledger.TxSpec{tx("side", "R", "B", 1, 0)}, Truncate: true, Props: only("C07")}, d},
-			{"two-nodes", ledger.Cfg{Nodes: []string{"G", "N1"}, Supply: sp(10, 0), Menu: []ledger.TxSpec{t1, t3, t7}, Truncate: true, MaxProposeNodes: 1, Props: only("C07")}, d},
+			{"sealing-rules", ledger.Cfg{Nodes: []string{"G", "N1"}, Supply: sp(10, 0), Menu: []ledger.TxSpec{t8, t9, t10, te}, Crafted: []ledger.TxSpec{ms}, Tick: true, Props: only("C10")}, d, 0, 0},
 		}
 	}},
-	{id: "C09", level: "model_checking", runs: func(tier string) []ledgerRun {
+	{id: "C14", level: "model_checking", runs: func(tier string) []ledgerRun {
 		d := 4
 		if tier == "thorough" {
 			d = 6
 		}
+		chain := []string{"P:0:p1", "P:0:p2", "P:0:p3", "P:0:p4"}
 		return []ledgerRun{
-			{"two-nodes+overdraw+truncate+dup", ledger.Cfg{Nodes: []string{"G", "N1"}, Supply: sp(10, 0), Menu: []ledger.TxSpec{t1, t2, t3}, Crafted: []ledger.TxSpec{mx}, Truncate: true, Dup: true, Tick: true, Props: only("C09")}, d},
-		}
-	}},
-	{id: "C10", level: "model_checking", runs: func(tier string) []ledgerRun {
-		d := 4
-		if tier == "thorough" {
-			d = 6
-		}
-		return []ledgerRun{
-			{"sealing-rules", ledger.Cfg{Nodes: []string{"G", "N1"}, Supply: sp(10, 0), Menu: []ledger.TxSpec{t8, t9, t10, te}, Crafted: []ledger.TxSpec{ms}, Tick: true, Props: only("C10")}, d},
+			{"truncated-sources", ledger.Cfg{Nodes: []string{"G"}, Spare: "N2", Sync: true, Supply: sp(10, 0), Menu: []ledger.TxSpec{t1, t3}, Truncate: true, Prefix: chain, Props: only("C14")}, d - 1, 2, 4},
+			{"multi-tip-sources", ledger.Cfg{Nodes: []string{"G", "N1"}, Spare: "N2", Sync: true, Supply: sp(10, 0), Menu: []ledger.TxSpec{t1, t2, t3}, Crafted: []ledger.TxSpec{tx("side", "R", "B", 1, 0)}, MaxProposeNodes: 1, Props: only("C14")}, d, 2, 4},
 		}
 	}},
 	{id: "C13", level: "model_checking", runs: func(tier string) []ledgerRun {
@@ -136,8 +163,8 @@ var ledgerSpecs = []ledgerSpec{
 		}
 		chain := []string{"P:0:p1", "P:0:p2", "P:0:p3"}
 		return []ledgerRun{
-			{"chain3-any-order", ledger.Cfg{Nodes: []string{"G", "N1"}, Supply: sp(10, 0), Menu: nil, Tick: true, Dup: true, Prefix: chain, Props: only("C13")}, d},
-			{"chain3+local-proposal", ledger.Cfg{Nodes: []string{"G", "N1"}, Supply: sp(10, 0), Menu: []ledger.TxSpec{tx("loc", "R", "B", 1, 0)}, MaxProposeNodes: 1, Tick: true, Prefix: chain, Props: only("C13")}, d - 1},
+			{"chain3-any-order", ledger.Cfg{Nodes: []string{"G", "N1"}, Supply: sp(10, 0), Menu: nil, Tick: true, Dup: true, Prefix: chain, Props: only("C13")}, d, 0, 0},
+			{"chain3+local-proposal", ledger.Cfg{Nodes: []string{"G", "N1"}, Supply: sp(10, 0), Menu: []ledger.TxSpec{tx("loc", "R", "B", 1, 0)}, MaxProposeNodes: 1, Tick: true, Prefix: chain, Props: only("C13")}, d - 1, 0, 0},
 		}
 	}},
 }
@@ -156,7 +183,7 @@ func withPrefixTxs(c ledger.Cfg) ledger.Cfg {
 		for _, t := range c.Menu {
 			have[t.Label] = true
 		}
-		for i := 1; i <= 4; i++ {
+		for i := 1; i <= 6; i++ {
 			l := fmt.Sprintf("p%d", i)
 			if !have[l] {
 				c.Hidden = append(c.Hidden, tx(l, "R", "A", 1, 0))
@@ -178,6 +205,7 @@ func ledgerMain(s ledgerSpec, args []string) int {
 		for _, r := range runs {
 			if r.name == fs.Arg(1) {
 				space.Opt.KeyFunc = world.KeyFunc
+				space.MaxDataPerEvent = r.maxData(common.Tier())
 				space.WorkerMain(ledger.New(withPrefixTxs(r.cfg)))
 				return 0
 			}
@@ -204,7 +232,7 @@ func ledgerMain(s ledgerSpec, args []string) int {
 		frep := &filterRep{rep: rep, id: s.id, run: r.name}
 		st := space.SearchF(frep.add, rep.Sample, []string{s.id, "worker", r.name}, d, *procs, deadline, 50)
 		perRun[r.name] = map[string]any{"states": st.States, "transitions": st.Transitions, "depth_completed": st.DepthDone, "depth_bound": d,
-			"exhaustive_within_bound": st.Exhaustive, "cap_hit": st.CapHit, "frontier_left": st.FrontierLeft, "level_sizes": st.LevelSizes, "counters": st.Counters, "results": st.Results}
+			"exhaustive_within_bound": st.Exhaustive, "cap_hit": st.CapHit, "frontier_left": st.FrontierLeft, "level_sizes": st.LevelSizes, "counters": st.Counters, "results": st.Results, "data_deviations_per_event_bound": r.maxData(common.Tier())}
 		total.States += st.States
 		total.Transitions += st.Transitions
 		total.Executions += st.Executions
